@@ -134,6 +134,10 @@ func checkC17(w *World, r *Report) {
 	r.Rule("R17.5", 2, "snapshot: every map/slice stored into a provider field is a fresh container, never the collection's own")
 	r.Rule("R17.6", 5, "queries and Build read the views R17.1 keeps in step; option and descriptor validation dominate the first write")
 	r.Rule("R17.7", 5, "every access to the registry views holds collection.mu (R09.1 restricted to collection)")
+	r.Rule("R17.8", 1, "a removal drops from the descriptor list the very descriptor it found in the services view")
+	r.Rule("R17.9", 1, "the duplicate test is skipped exactly for the descriptors the insert step files under groups")
+	ruleRemovalIdentity(w, r, "R17.8")
+	ruleCheckInsertAgreement(w, r, "R17.9")
 
 	// ---- R17.1
 	var writers []*FuncInfo
